@@ -30,6 +30,7 @@ func genNonceWriters() error {
 	root := filepath.Join(repo, "go")
 	fset := token.NewFileSet()
 	var sites []string
+	var recs []string // writers / deleters of whole account records
 	isGeneralSel := func(e ast.Expr) bool {
 		se, ok := e.(*ast.SelectorExpr)
 		return ok && se.Sel.Name == "General"
@@ -66,7 +67,7 @@ func genNonceWriters() error {
 			return err
 		}
 		s := string(src)
-		if !strings.Contains(s, "Nonce") && !strings.Contains(s, ".General") {
+		if !strings.Contains(s, "Nonce") && !strings.Contains(s, ".General") && !strings.Contains(s, "accountKeyFmt") && !strings.Contains(s, "SetAccount") {
 			return nil
 		}
 		rel, _ := filepath.Rel(repo, path)
@@ -108,6 +109,46 @@ func genNonceWriters() error {
 							}
 						}
 					}
+				case *ast.CallExpr:
+					// (a) raw store operations on the account key format: X.Insert/Remove/...(ctx, accountKeyFmt.Encode(..), ..)
+					// (b) SetAccount(ctx, addr, <Account literal>): a fresh struct replaces the record
+					if se, ok := x.Fun.(*ast.SelectorExpr); ok {
+						usesAccountKey := false
+						for _, a := range x.Args {
+							ast.Inspect(a, func(m ast.Node) bool {
+								if c, ok := m.(*ast.CallExpr); ok {
+									if s2, ok := c.Fun.(*ast.SelectorExpr); ok && s2.Sel.Name == "Encode" {
+										if id, ok := s2.X.(*ast.Ident); ok && id.Name == "accountKeyFmt" {
+											usesAccountKey = true
+										}
+									}
+								}
+								return true
+							})
+						}
+						name := se.Sel.Name
+						if usesAccountKey && name != "Get" && name != "Seek" && name != "Decode" {
+							recs = append(recs, rel+":"+fn+":"+name)
+						}
+						if name == "SetAccount" && len(x.Args) > 0 {
+							last := x.Args[len(x.Args)-1]
+							if ue, ok := last.(*ast.UnaryExpr); ok {
+								last = ue.X
+							}
+							if cl, ok := last.(*ast.CompositeLit); ok {
+								isAcc := false
+								switch t := cl.Type.(type) {
+								case *ast.Ident:
+									isAcc = t.Name == "Account"
+								case *ast.SelectorExpr:
+									isAcc = t.Sel.Name == "Account"
+								}
+								if isAcc {
+									recs = append(recs, rel+":"+fn+":SetAccount(literal)")
+								}
+							}
+						}
+					}
 				case *ast.CompositeLit:
 					if isGeneralAccountType(x.Type) {
 						for _, el := range x.Elts {
@@ -139,6 +180,17 @@ func genNonceWriters() error {
 	for i, s := range sites {
 		end := ";"
 		if i == len(sites)-1 {
+			end = ""
+		}
+		fmt.Fprintf(&sb, "  %q%s\n", s, end)
+	}
+	sb.WriteString("].\n")
+	sort.Strings(recs)
+	sb.WriteString("(* every site that writes or DELETES a whole account record: raw store operations on the\n   account key format, and SetAccount with a fresh Account literal (a missing record reads as the\n   zero account, so a deletion is a nonce write to 0): file:function:operation *)\n")
+	sb.WriteString("Definition account_record_writers : list string := [\n")
+	for i, s := range recs {
+		end := ";"
+		if i == len(recs)-1 {
 			end = ""
 		}
 		fmt.Fprintf(&sb, "  %q%s\n", s, end)
